@@ -19,7 +19,9 @@ CHECKS['C13'] = dict(
         'sscanf format, inet_pton/inet_addr validation and command construction of handshake_login/tun_setip/tun_setmtu: every string '
         'handed to system() is the fixed ifconfig template with strict dotted quads / an mtu in 201..1500 in the peer positions, no '
         'shell metacharacter comes from the reply. Format strings, call order and which arguments are validated are re-read from '
-        'the source each run; the model runs against the real handshake_login (client.c TU, wrapped system()).',
+        'the source each run; the model runs against the real handshake_login (client.c TU, wrapped system()). C13_handshake_commands lifts '
+        'this to the whole handshake of the sequencing model (coq/Handshake.v, compared with the real client_handshake incl. its system() strings in C06): '
+        'for every script of datagrams and time-outs every logged system() argument satisfies the command predicate, and only the login step adds any.',
    note='Trusts: modelled glibc behaviour of sscanf %64[^-]/%d, inet_pton, inet_addr, inet_ntoa, snprintf (differentially tested '
         'against the libc in the sandbox, not proved); system() return value is a parameter; LINUX branch only; Coq kernel; translator; extraction; gcc.',
    technique='Coq proof on a Gallina model of parsing/validation/command construction, differential correspondence against the real client code',
